@@ -78,7 +78,9 @@ def harness_for(case):
 
 
 def run_case(case, tier):
-    return run_template_case(harness_for(case), tier)
+    # every op()/simplify() of the abstract Skia may also come back EMPTY (explorer fork): clip
+    # regions that vanish are a code path of their own (empty command lists, falsy paths)
+    return run_template_case(harness_for(case), tier, opts={"skia_may_return_empty": True})
 
 
 def finding_key(case, failure):
@@ -94,6 +96,9 @@ BATTERY = [
      "rx1": 2, "ry1": 2, "rx2": 2, "ry2": 9, "rx3": 9, "ry3": 9, "rx4": 9, "ry4": 2,
      "x1": -2, "y1": -2, "w1": 30, "h1": 30, "px1": -2, "py1": -2, "px2": 40, "py2": -2, "px3": -2, "py3": 40},
 ]
+# the same two geometries with visible transform parameters (a witness's own translation may be
+# too small for the sampler to see which clip it was applied to)
+BATTERY += [dict(b, tx=5, ty=3, s1=1.5, s2=0.75, a1=30) for b in list(BATTERY)]
 
 
 def replay(case, failure):
